@@ -5,12 +5,12 @@ import "math"
 // V3 is a 3-vector in metres (ECEF).
 type V3 struct{ X, Y, Z float64 }
 
-func (a V3) Sub(b V3) V3       { return V3{a.X - b.X, a.Y - b.Y, a.Z - b.Z} }
-func (a V3) Add(b V3) V3       { return V3{a.X + b.X, a.Y + b.Y, a.Z + b.Z} }
-func (a V3) Mul(f float64) V3  { return V3{a.X * f, a.Y * f, a.Z * f} }
-func (a V3) Dot(b V3) float64  { return a.X*b.X + a.Y*b.Y + a.Z*b.Z }
-func (a V3) Cross(b V3) V3     { return V3{a.Y*b.Z - a.Z*b.Y, a.Z*b.X - a.X*b.Z, a.X*b.Y - a.Y*b.X} }
-func (a V3) Norm() float64     { return math.Sqrt(a.Dot(a)) }
+func (a V3) Sub(b V3) V3        { return V3{a.X - b.X, a.Y - b.Y, a.Z - b.Z} }
+func (a V3) Add(b V3) V3        { return V3{a.X + b.X, a.Y + b.Y, a.Z + b.Z} }
+func (a V3) Mul(f float64) V3   { return V3{a.X * f, a.Y * f, a.Z * f} }
+func (a V3) Dot(b V3) float64   { return a.X*b.X + a.Y*b.Y + a.Z*b.Z }
+func (a V3) Cross(b V3) V3      { return V3{a.Y*b.Z - a.Z*b.Y, a.Z*b.X - a.X*b.Z, a.X*b.Y - a.Y*b.X} }
+func (a V3) Norm() float64      { return math.Sqrt(a.Dot(a)) }
 func clamp01(t float64) float64 { return math.Max(0, math.Min(1, t)) }
 
 // ECEF converts WGS84 geodetic coordinates (degrees, metres) to earth-centred earth-fixed metres.
